@@ -205,20 +205,61 @@ func C12(x *Ctx, r *core.Result) {
 				okA = false
 			}
 		}
-		// success return values
-		for bb := range reachBlocks(nilSucc, nil) {
-			if noNil[bb] {
-				continue
+		// what is returned, case by case (a `return helper(…)` tail call is replaced by the helper's own returns)
+		cases := x.returnCases(fn, map[ssa.Value]*RX{}, 0, func(c *ssa.Call, args []*RX) bool {
+			// the null fallback itself: called with exactly (data, the reader's error)
+			return len(args) == 2 && args[0].isLeaf(data) && args[1].isLeaf(errEx)
+		})
+		okB := true
+		helpers := map[*ssa.Function]bool{}
+		for _, rc := range cases {
+			for _, h := range rc.Via {
+				helpers[h] = true
 			}
-			if ret, ok := bb.Instrs[len(bb.Instrs)-1].(*ssa.Return); ok {
-				if len(ret.Results) != 2 || offEx == nil || ret.Results[0] != ssa.Value(offEx) {
-					r.Fail(d, key+":success-offset", x.W.Pos(ret.Pos()), "on success the returned offset is not the reader's")
-					okD = false
-				} else if !(isNilConst(ret.Results[1]) || ret.Results[1] == ssa.Value(errEx)) {
-					r.Fail(d, key+":success-error", x.W.Pos(ret.Pos()), "on success a non-nil error may be returned")
-					okD = false
+			errNil, errNonNil := false, false
+			for _, c := range rc.Conds {
+				if c.V.isLeaf(errEx) {
+					if c.NonNil {
+						errNonNil = true
+					} else {
+						errNil = true
+					}
 				}
 			}
+			switch {
+			case len(rc.Results) != 2:
+				r.Fail(d, key+":results", x.W.Pos(rc.Ret.Pos()), "unexpected result count")
+				okD = false
+			case errNil && !errNonNil:
+				if offEx == nil || !rc.Results[0].isLeaf(offEx) {
+					r.Fail(d, key+":success-offset", x.W.Pos(rc.Ret.Pos()), "on success the returned offset is not the reader's")
+					okD = false
+				} else if !(isNilConst(rc.Results[1].V) && rc.Results[1].Call == nil && rc.Results[1].X == nil && rc.Results[1].Load == nil) && !rc.Results[1].isLeaf(errEx) {
+					r.Fail(d, key+":success-error", x.W.Pos(rc.Ret.Pos()), "on success a non-nil error may be returned")
+					okD = false
+				}
+			case errNonNil && !errNil:
+				// must be results 0 and 1 of fallback(data, that error)
+				r0, r1 := rc.Results[0], rc.Results[1]
+				good := r0.Call != nil && r0.Call == r1.Call && r0.Idx == 0 && r1.Idx == 1 && r0.Call.Call.StaticCallee() != nil &&
+					x.W.InLib(r0.Call.Call.StaticCallee()) && len(r0.Args) == 2 && r0.Args[0].isLeaf(data) && r0.Args[1].isLeaf(errEx)
+				if !good {
+					r.Fail(b, key+":fallback", x.W.Pos(rc.Ret.Pos()), "on a reader error the function does not return the null fallback's results for (data, that error)")
+					okB = false
+				} else if fallback == nil {
+					fallback = r0.Call.Call.StaticCallee()
+				} else if fallback != r0.Call.Call.StaticCallee() {
+					r.Fail(b, key+":fallback", x.W.Pos(rc.Ret.Pos()), "Decode functions use different null fallbacks")
+					okB = false
+				}
+			default:
+				r.Fail(b, key+":untested-return", x.W.Pos(rc.Ret.Pos()), "a return is not under a test of the reader's error: it cannot be right both when the read succeeded and when it failed")
+				okB = false
+			}
+		}
+		if len(cases) == 0 {
+			r.Fail(b, key+":returns", x.W.Pos(fn.Pos()), "no return found")
+			okB = false
 		}
 		if okA {
 			a.OK(1)
@@ -227,41 +268,14 @@ func C12(x *Ctx, r *core.Result) {
 		if okD {
 			d.OK(1)
 		}
-		// R12b
-		okB := true
-		for bb := range reachBlocks(nonNil, nil) {
-			if bb == nilSucc && nilSucc != nonNil {
-				// join with the success path would already be flagged by dominance
-			}
-			if ret, ok := bb.Instrs[len(bb.Instrs)-1].(*ssa.Return); ok && noNil[bb] {
-				// must return Extract 0,1 of a call fallback(data, errEx)
-				var fc *ssa.Call
-				good := len(ret.Results) == 2
-				if good {
-					e0, ok0 := ret.Results[0].(*ssa.Extract)
-					e1, ok1 := ret.Results[1].(*ssa.Extract)
-					if ok0 && ok1 && e0.Index == 0 && e1.Index == 1 && e0.Tuple == e1.Tuple {
-						fc, _ = e0.Tuple.(*ssa.Call)
-					}
-				}
-				if fc == nil || fc.Call.StaticCallee() == nil || !x.W.InLib(fc.Call.StaticCallee()) || len(fc.Call.Args) != 2 ||
-					fc.Call.Args[0] != ssa.Value(data) || fc.Call.Args[1] != ssa.Value(errEx) {
-					r.Fail(b, key+":fallback", x.W.Pos(ret.Pos()), "on a reader error the function does not return the null fallback's results for (data, that error)")
-					okB = false
-				} else {
-					if fallback == nil {
-						fallback = fc.Call.StaticCallee()
-					} else if fallback != fc.Call.StaticCallee() {
-						r.Fail(b, key+":fallback", x.W.Pos(ret.Pos()), "Decode functions use different null fallbacks")
-						okB = false
-					}
-				}
-			}
-		}
 		// no other in-library call besides reader and fallback
 		for _, c := range others {
 			callee := c.Call.StaticCallee()
 			if callee != nil && fallback != nil && callee == fallback {
+				continue
+			}
+			// a private helper whose returns were looked through above and that itself only calls the fallback
+			if callee != nil && helpers[callee] && x.onlyCalls(callee, fallback, helpers) {
 				continue
 			}
 			r.Fail(b, key+":extra-call", x.W.Pos(c.Pos()), "unexpected additional call in a Decode function")
@@ -377,4 +391,26 @@ func (x *Ctx) isFreshNonNilError(v ssa.Value) bool {
 		}
 	}
 	return false
+}
+
+
+// onlyCalls: fn has no effect of its own — no stores — and calls nothing but `allowed` (and other looked-through helpers).
+func (x *Ctx) onlyCalls(fn, allowed *ssa.Function, helpers map[*ssa.Function]bool) bool {
+	for _, b := range fn.Blocks {
+		for _, ins := range b.Instrs {
+			switch t := ins.(type) {
+			case *ssa.Call:
+				c := t.Call.StaticCallee()
+				if _, isB := t.Call.Value.(*ssa.Builtin); isB {
+					continue
+				}
+				if c == nil || !(c == allowed || (helpers[c] && c != fn)) {
+					return false
+				}
+			case *ssa.Store, *ssa.MapUpdate, *ssa.Go, *ssa.Defer, *ssa.Send:
+				return false
+			}
+		}
+	}
+	return true
 }
